@@ -14,8 +14,10 @@
 
    The model is of the tree WITH the fixes for F03 (appendRaw takes the
    pre-write size with Seek(0, io.SeekEnd)), F04 (rollbacks commit the index
-   before truncating the file) and F05 (opening a store trims a partially
-   written header), see KNOWN_FINDINGS. *)
+   before truncating the file), F05 (opening a store trims a partially
+   written header), F41 (a store whose index never recorded a tip is started
+   over: resetIfNoTip) and F42 (the filter header state reset moves the index
+   tip to the genesis block BEFORE removing the file), see KNOWN_FINDINGS. *)
 From stdpp Require Import gmap list.
 From Coq Require Import ZArith Lia.
 Open Scope Z_scope.
@@ -194,7 +196,10 @@ Inductive dstep :=
 | DTruncF (n : Z)
 | DIdxAdd (sorted : list (Z * Z))   (* one committed index transaction *)
 | DIdxDel (gone : list Z) (newtip : Z)
-| DFTip (newtip : Z).
+| DFTip (newtip : Z)
+| DRemoveF.                         (* os.Remove of the filter file: it is created empty again *)
+
+Definition fempty : ffile := {| ents := []; junk := 0 |}.
 
 Definition apply_step (s : store) (d : dstep) : option store :=
   match d with
@@ -209,6 +214,7 @@ Definition apply_step (s : store) (d : dstep) : option store :=
       Some {| bf := bf s; ff := ff s; idx := fold_left (fun m x => delete x m) gone (idx s);
               btip := Some nt; ftip := ftip s |}
   | DFTip nt => Some {| bf := bf s; ff := ff s; idx := idx s; btip := btip s; ftip := Some nt |}
+  | DRemoveF => Some (set_ff s fempty)
   end.
 
 Fixpoint apply_steps (s : store) (ds : list dstep) : option store :=
@@ -288,9 +294,18 @@ Definition trim (esz : Z) (f : ffile) : ffile :=
   if partial =? 0 then f else
   match ftruncate esz f (fsize esz f - partial) with Some f' => f' | None => f end.
 
+(* resetIfNoTip: the (trimmed) file is not empty but the index has never
+   recorded a tip for this store (tip KEY absent; a tip key whose hash is not
+   in the index is a different error and is not repaired): Truncate(0) *)
+Definition reset_if_no_tip (esz : Z) (tip : option Z) (f : ffile) : ffile :=
+  match tip with
+  | Some _ => f
+  | None => if fsize esz f =? 0 then f else fempty
+  end.
+
 (* NewBlockHeaderStore on existing state; genesis = hash token of the genesis header *)
 Definition recover_block (genesis : Z) (s0 : store) : option store :=
-  let s := set_bf s0 (trim BSZ (bf s0)) in
+  let s := set_bf s0 (reset_if_no_tip BSZ (btip s0) (trim BSZ (bf s0))) in
   if fsize BSZ (bf s) =? 0 then
     match bwrite s [(genesis, 0)] NoFault with (s', ROk) => Some s' | _ => None end
   else
@@ -306,28 +321,73 @@ Definition recover_block (genesis : Z) (s0 : store) : option store :=
     | None => None
     end.
 
+(* the file/index reconciliation at the end of NewFilterHeaderStore *)
+Definition reconcile_filter (s : store) : option store :=
+  match tip_height s (ftip s) with
+  | Some (t, th) =>
+    let fh := u32 (fsize FSZ (ff s) / FSZ - 1) in
+    match fread FSZ (ff s) fh with
+    | RdEOF => None
+    | r =>
+      (* the code compares the tip key (a BLOCK hash) with the filter header read *)
+      if rd_tok r =? t then Some s else
+        set_ff s <$> truncate_headers FSZ (ff s) (u32 (fh - th)) NoFault
+    end
+  | None => None
+  end.
+
 (* NewFilterHeaderStore (no state assertion); gfh = genesis filter header token *)
 Definition recover_filter (gfh genesis : Z) (s0 : store) : option store :=
-  let s := set_ff s0 (trim FSZ (ff s0)) in
+  let s := set_ff s0 (reset_if_no_tip FSZ (ftip s0) (trim FSZ (ff s0))) in
   if fsize FSZ (ff s) =? 0 then
     match fwrite s [(gfh, genesis)] NoFault with (s', ROk) => Some s' | _ => None end
-  else
-    match tip_height s (ftip s) with
-    | Some (t, th) =>
-      let fh := u32 (fsize FSZ (ff s) / FSZ - 1) in
-      match fread FSZ (ff s) fh with
-      | RdEOF => None
-      | r =>
-        (* the code compares the tip key (a BLOCK hash) with the filter header read *)
-        if rd_tok r =? t then Some s else
-          set_ff s <$> truncate_headers FSZ (ff s) (u32 (fh - th)) NoFault
-      end
+  else reconcile_filter s.
+
+(* maybeResetHeaderState's test: FetchHeaderByHeight reads the file BY POSITION
+   only (no index involved); not found => no reset; bytes that are not a
+   known entry are "different" *)
+Definition assertion_resets (f : ffile) (a : option (Z * Z)) : bool :=
+  match a with
+  | None => false
+  | Some (h, v) =>
+    match fread FSZ f h with
+    | RdEOF => false
+    | RdOk x => negb (x =? v)
+    | RdGarbage => true
+    end
+  end.
+
+(* durable steps of the reset, in the code's order (F42 fix): index tip to
+   the genesis block; file removed; then NewFilterHeaderStore(..., nil) on the
+   empty file = the genesis write (file append, index tip) *)
+Definition reset_steps (gfh genesis : Z) : list dstep :=
+  [DFTip genesis; DRemoveF; DAppendF [gfh]; DFTip genesis].
+
+(* NewFilterHeaderStore with a header state assertion a = (height, filter
+   header).  An empty file gets the genesis entry and the constructor returns
+   WITHOUT looking at the assertion.  After a reset the constructor calls
+   itself with a nil assertion (so: no loop, also when height 0 is asserted). *)
+Definition recover_filter_assert (gfh genesis : Z) (a : option (Z * Z)) (s0 : store) : option store :=
+  let s := set_ff s0 (reset_if_no_tip FSZ (ftip s0) (trim FSZ (ff s0))) in
+  if fsize FSZ (ff s) =? 0 then
+    match fwrite s [(gfh, genesis)] NoFault with (s', ROk) => Some s' | _ => None end
+  else if assertion_resets (ff s) a then
+    match apply_steps s [DFTip genesis; DRemoveF] with
+    | Some s' => recover_filter gfh genesis s'
     | None => None
-    end.
+    end
+  else reconcile_filter s.
 
 Definition recover (genesis gfh : Z) (s : store) : option store :=
   match recover_block genesis s with
   | Some s1 => recover_filter gfh genesis s1
+  | None => None
+  end.
+
+(* both constructors, the filter store's with a state assertion *)
+Definition recover_assert (genesis gfh : Z) (a : option (Z * Z)) (s : store) : option store :=
+  match recover_block genesis s with
+  | Some s1 => recover_filter_assert gfh genesis a s1
   | None => None
   end.
 
